@@ -46,6 +46,11 @@ CLAIMED = {
             "Logits.tla (mask, temperature, top-k, top-p, normalise on integer weights) is model-checked for all weight vectors x masks x "
             "parameters of a small scope with the clauses of C10 as invariants; every terminal state is replayed into the real "
             "process_logits/greedy/sampling and random float executions are validated by LogitsTrace.tla."),
+    "C19": ("model_checking", "6", "Persist.tla: two synchronised copies (original / restored) of each environment model under the persistence codecs, TLC exhaustive; replay into real restored objects; PersistTrace.tla on recorded round trips",
+            "TLC model-checks the product of an environment's code-shaped model with its restored copy under the codecs (same / text with re-padding) with "
+            "content, mask, done, reward and forced-rollout equality as invariants (non-vacuity shown by a lossy-codec self-test); every printed state of the "
+            "restored copy is replayed into the REAL restored objects (deepcopy, pickle, npz, dataset files + load_data, FJSP/JSSP text files); recorded real round "
+            "trips incl. RNG state and Lightning checkpoints (policy parameters, greedy actions, rollout-baseline policy) are validated by PersistTrace.tla."),
     "C20": ("model_checking", "6", "exact-rational TLA+ state machines (Welford, EMA, warm-up), TLC exhaustive; replay + TLC trace validation",
             "Stats.tla is model-checked for all histories of a small scope (invariants: mean, M2, sample variance, EMA closed form, "
             "warm-up weight and convex combination); every history is replayed into the real classes call by call; longer random "
